@@ -37,7 +37,7 @@ EXPLANATION = (
 ASSUMPTIONS = ['stubs: building._format_arg, Buildable.__repr__ constant',
                'a built functools.partial without bound arguments is considered structurally identical to its callable '
                '(what replace_unconfigured_partials_with_callables is documented to produce)']
-OUT_OF_BOUNDS = ['configurations outside the family', 'auto_config functions outside the four listed programs']
+OUT_OF_BOUNDS = ['configurations outside the family', 'callables whose signature defaults are themselves Buildables (materialize_defaults turns a default that was passed raw into one that is built)', 'auto_config functions outside the four listed programs']
 
 DEF_LIST = [1, 2]
 
